@@ -493,6 +493,8 @@ func genText() *rapid.Generator[Case] {
 var shapes = []string{
 	"_", "a", "''", "[]", "0", "1", "-1", "255", "256", "2147483648", "9223372036854775807", "-9223372036854775808",
 	"LB", "PB", "SB", "FB",
+	// the empty atom and other odd atoms as operands of symbolic and alphanumeric operators
+	"1 mod ''", "'' mod 1", "- ''", "'' - ''", "1 is ''", "'' rem ''", "\\+ ''", "'' = ''", "[''|'']", "- (-)", "mod mod mod", "'' : ''", "f('', - '')",
 	"selfload", "selfc", "selfinc", "mutual_a", "inc_a", "plain", "bad", "'selfinc.pl'", "[selfinc]", "[plain, selfload]", "no_such_file",
 	"1.5", "-0.0", "1.0e308", "f(a)", "f(_)", "[a,b]", "[a|_]", "[a|b]", "\"ab\"", "[97,98]", "[a,_]", "user_input", "user_output", "S0",
 	"true", "(a,b)", "(a,1)", "a/1", "foo/0", "foo/(-1)", "a-1", "[a-1,b-2]", "[x=_]", "[quoted(true)]", "'1'", "read", "write", "append", "xfx", "fy", "200", "1200", "1201",
